@@ -14,9 +14,7 @@ from ..algebra import GExpr, Poly
 from ..astutil import U, assignments, calls, callee_name, own_walk
 from ..kernelir import KInterp, PyVal
 from ..phys import bcol, check_equal, component, g, hook_summary, run_kernel
-from ..segments import Arm, tiling
 from ..source import AnalysisError
-from ..segments import canonical_bsm
 from ..arrnf import mk_opn
 
 BSM = "pandapipes.pf.build_system_matrix"
